@@ -101,7 +101,11 @@ def get_options_and_frames(
         # Input may not be seekable (e.g. a network stream) -- then we need to buffer
         # it to determine if it's delimited.
         # See also: https://github.com/Jelly-RDF/pyjelly/issues/298
-        inp = io.BufferedReader(inp)  # type: ignore[arg-type, type-var, unused-ignore]
+        if isinstance(inp, io.RawIOBase):
+            # Only raw streams need buffering. Wrapping an already buffered stream
+            # (socket.makefile("rb"), an HTTP response) again would make the outer
+            # buffer wait until the inner one has filled 8 KiB or hit EOF.
+            inp = io.BufferedReader(inp)  # type: ignore[arg-type, type-var, unused-ignore]
         # peek() does at most one raw read and may return fewer than 3 bytes on a
         # short read; read() keeps reading until it has 3 bytes or hits EOF.
         header = inp.read(3)
